@@ -150,6 +150,54 @@ for _pos, _kinds in _POSITION_KINDS.items():
     for _kind in _kinds:
         POSITION_TEXT['%s_%s' % (_pos, _kind)] = (lambda n, f=_POSITIONS[_pos][0], k=_kind, i=_POSITIONS[_pos][1]: f(_g(k, n, i)))
 LOAD.update(POSITION_TEXT)
+
+
+# Two structures that grow TOGETHER.  The code relates pairs of structures (an anchored node and the aliases to it, the
+# anchors table and the aliases, the %TAG table and the tags that use it, nesting depth and width, a merge base and the
+# mapping's own entries - the merge_* families above); a cost proportional to the product of the two is linear in every
+# family that grows only one of them.  Here one parameter n drives both, so that the text still grows linearly with n.
+def _isqrt(n):
+    return max(2, int(n ** 0.5))
+
+
+def _refs(n, item='  - *b\n'):
+    return 'refs:\n' + item * n
+
+
+def _dag(n):
+    out = ['l0000000: &a0000000 [x, x]\n']
+    for i in range(1, n):
+        out.append('l%07d: &a%07d [*a%07d, *a%07d]\n' % (i, i, i - 1, i - 1))
+    return ''.join(out)
+
+
+def _sqrt_aliases(n):
+    a = _isqrt(n)                 # a anchors, each aliased n // a times: a * (n // a) ~ n entries
+    return _lines('- &a%(i)07d [x, y]\n', a) + ''.join('- *a%07d\n' % i for _ in range(n // a) for i in range(a))
+
+
+def _nested_wide(n):
+    d = _isqrt(n)                 # depth d, n // d entries per level
+    row = ', '.join(['a'] * (n // d))
+    return ''.join('[' + row + ',\n' for _ in range(d)) + 'x' + ']' * d + '\n'
+
+
+PAIR_TEXT = {
+    'alias_big_block_seq':  lambda n: 'base: &b\n' + '  - x\n' * n + _refs(n),
+    'alias_big_block_map':  lambda n: 'base: &b\n' + _lines('  k%(i)07d: v\n', n) + _refs(n),
+    'alias_big_flow_seq':   lambda n: 'base: &b [\n' + '  x,\n' * n + ']\nrefs: [\n' + '  *b,\n' * n + ']\n',
+    'alias_big_nested':     lambda n: 'base: &b\n' + '  - [x, {y: z}]\n' * n + _refs(n),
+    'alias_big_as_values':  lambda n: 'base: &b\n' + '  - x\n' * n + 'refs:\n' + _lines('  r%(i)07d: *b\n', n),
+    'alias_big_per_document': lambda n: ''.join('--- \nbase: &b\n' + '  - x\n' * _isqrt(n) + _refs(_isqrt(n))
+                                                for _ in range(n // _isqrt(n))),
+    'anchors_sqrt_aliases': _sqrt_aliases,
+    'alias_dag_chain':      _dag,
+    'tag_handles_used':     lambda n: _lines('%%TAG !h%(i)07d! tag:yaml.org,2002:\n', n) + '---\n' + _lines('- !h%(i)07d!str x\n', n),
+    'nested_wide_flow':     _nested_wide,
+}
+LOAD.update(PAIR_TEXT)
+TEXT_FED = dict(POSITION_TEXT)
+TEXT_FED.update({k: v for k, v in PAIR_TEXT.items() if k != 'nested_wide_flow'})
 # how deep block / flow nesting gets (default: constant), and whether the text size is not linear in n
 DEPTH = {'nested_block_seqs_one_line': lambda n: n + 2, 'nested_block_maps': lambda n: n + 2}
 FLOW = {'nested_flow_seqs': lambda n: n, 'nested_flow_maps': lambda n: n}
@@ -289,11 +337,50 @@ POSITION_VALUE['first_key_tuple_flow'] = ((lambda n: {_gv('tuple', n): 'v', 'z':
 POSITION_VALUE['many_tuple_keys'] = ((lambda n: {(1000000 + i, 7): 7 for i in range(n)}), {'sort_keys': False})
 DUMP.update(POSITION_VALUE)
 
+
+def _shared(kind):
+    def make(n):
+        g = {'list': lambda: list(range(1000000, 1000000 + n)), 'dict': lambda: {'k%07d' % i: 7 for i in range(n)},
+             'nested': lambda: [[1000000 + i, {'y': 7}] for i in range(n)]}[kind]()
+        return {'base': g, 'refs': [g] * n}
+    return make
+
+
+def _shared_values(n):
+    g = list(range(1000000, 1000000 + n))
+    d = {'base': g}
+    d.update(('r%07d' % i, g) for i in range(n))
+    return d
+
+
+def _shared_sqrt(n):
+    a = _isqrt(n)
+    objs = [[1000000 + i, 7] for i in range(a)]
+    return objs + [o for _ in range(n // a) for o in objs]
+
+
+def _dag_value(n):
+    x = ['x', 'x']
+    for _ in range(n):
+        x = [x, x]
+    return x
+
+
+PAIR_VALUE = {
+    'shared_big_list':      (_shared('list'), {'sort_keys': False}),
+    'shared_big_dict':      (_shared('dict'), {'sort_keys': False}),
+    'shared_big_nested':    (_shared('nested'), {'sort_keys': False}),
+    'shared_big_as_values': (_shared_values, {'sort_keys': False}),
+    'shared_sqrt':          (_shared_sqrt, {}),
+    'dag_chain':            (_dag_value, {}),
+}
+DUMP.update(PAIR_VALUE)
+
 DUMP_ALL = {
     'documents':           (lambda n: ['d%07d' % i for i in range(n)], {}),
     'documents_of_lists':  (lambda n: [[1000000 + i, 'x'] for i in range(n)], {'explicit_start': True}),
 }
-DUMP_NESTED = {'nested_lists', 'nested_dicts', 'nested_lists_flow'}
+DUMP_NESTED = {'nested_lists', 'nested_dicts', 'nested_lists_flow', 'dag_chain'}
 
 
 def dump_apis(yaml):
@@ -319,8 +406,8 @@ def dump_apis(yaml):
         return lambda: yaml.emit(evs, Dumper=yaml.SafeDumper, **kw)
 
     def serialize_text(t, kw):     # serializer + emitter fed with the node graph of a text
-        node = yaml.compose(t, Loader=yaml.SafeLoader)
-        return lambda: yaml.serialize(node, Dumper=yaml.SafeDumper, **kw)
+        nodes = list(yaml.compose_all(t, Loader=yaml.SafeLoader))
+        return lambda: yaml.serialize_all(nodes, Dumper=yaml.SafeDumper, **kw)
     return {'dump': dump, 'dump_stream': dump_stream, 'dump_all': dump_all, 'serialize': serialize, 'emit': emit,
             'emit_text': emit_text, 'serialize_text': serialize_text}
 
@@ -364,7 +451,7 @@ def measure_calls(task):
             w.append(count_calls(lambda: fn(text)))
     else:
         if api in ('emit_text', 'serialize_text'):
-            gen, kw = POSITION_TEXT[fam], {}
+            gen, kw = TEXT_FED[fam], {}
         else:
             gen, kw = (DUMP_ALL if api == 'dump_all' else DUMP)[fam]
         f = dump_apis(yaml)[api]
@@ -477,7 +564,7 @@ def measure_prims(task):
             size = len(text)
             look = max(len(x) for x in text.split('\n'))
         elif api == 'emit_text':
-            evs = list(yaml.parse(POSITION_TEXT[fam](n), Loader=yaml.SafeLoader))
+            evs = list(yaml.parse(TEXT_FED[fam](n), Loader=yaml.SafeLoader))
             d = PD(io.StringIO())
             try:
                 for ev in evs:
